@@ -2,7 +2,7 @@
 //! and prints `REPRODUCED: ...` when the property violation is observed, `NOT-REPRODUCED: ...` otherwise.
 //! A hang is detected by the caller's watchdog, a panic by the exit status.
 use levenberg_marquardt::LeastSquaresProblem;
-use nalgebra::DVector;
+use nalgebra::{DMatrix, DVector};
 use varpro::prelude::*;
 use varpro::solvers::levmar::{LevMarProblemBuilder, LevMarSolver};
 
@@ -26,6 +26,38 @@ fn model(n: usize, m: usize, p: usize) -> varpro::model::SeparableModel<f64> {
 
 fn data(n: usize) -> DVector<f64> {
     DVector::from_vec((0..n).map(|i| { let x = i as f64; 2. * (-x / 1.4).exp() + 3. * (-x / 5.).exp() + 0.01 * (x * 1.7).sin() }).collect::<Vec<_>>())
+}
+
+/// independent oracle for the algebraic contracts (C01-C03, C06, C07, C10): textbook formulas through the normal equations,
+/// evaluated on a second model instance; none of the code paths under test is used
+struct Oracle { coeff: DMatrix<f64>, resid: DVector<f64>, jac: DMatrix<f64>, yw: DMatrix<f64> }
+fn oracle(n: usize, m: usize, p: usize, alpha: &[f64], w: &Option<DVector<f64>>, y: &DMatrix<f64>) -> Oracle {
+    let mut mo = model(n, m, p);
+    mo.set_params(DVector::from_vec(alpha.to_vec())).unwrap();
+    let wm = match w { Some(w) => DMatrix::from_diagonal(w), None => DMatrix::identity(n, n) };
+    let a = &wm * mo.eval().unwrap();
+    let yw = &wm * y;
+    let ata_inv = (a.transpose() * &a).try_inverse().expect("oracle: normal matrix singular");
+    let coeff = &ata_inv * a.transpose() * &yw;
+    let r = &yw - &a * &coeff;
+    let resid = DVector::from_iterator(n * y.ncols(), r.iter().cloned()); // column-major stacking
+    let proj = &a * &ata_inv * a.transpose();
+    let mut jac = DMatrix::zeros(n * y.ncols(), p);
+    for k in 0..p {
+        let x = &wm * mo.eval_partial_deriv(k).unwrap() * &coeff;
+        let c = &proj * &x - &x;
+        jac.set_column(k, &DVector::from_iterator(n * y.ncols(), c.iter().cloned()));
+    }
+    Oracle { coeff, resid, jac, yw }
+}
+fn close(a: &DMatrix<f64>, b: &DMatrix<f64>) -> Option<f64> {
+    if a.shape() != b.shape() { return Some(f64::INFINITY); }
+    let scale = 1.0 + b.amax();
+    let d = (a - b).amax();
+    if d.is_nan() || d > 1e-7 * scale { Some(d) } else { None }
+}
+fn ydata(n: usize, s: usize) -> DMatrix<f64> {
+    DMatrix::from_fn(n, s, |i, j| { let x = i as f64; (2. + j as f64) * (-x / 1.4).exp() + (3. - 0.5 * j as f64) * (-x / 5.).exp() + 0.01 * (x * 1.7 + j as f64).sin() })
 }
 
 fn main() {
@@ -61,6 +93,92 @@ fn main() {
                 Ok(_) => println!("REPRODUCED: fit_with_statistics returned Ok although N={} <= M+P={}", n, m + p),
                 Err(f) => println!("NOT-REPRODUCED: Err({:?})", f.minimization_report.termination),
             }
+        }
+        // C01-C03, C06, C07, C10: coefficients, residuals, Jacobian and weighted data against the independent oracle, for
+        // single and multiple right-hand sides, with and without (partly zero) weights, after one and after two updates
+        "algebra_sweep" => {
+            let mut found = false;
+            for &(n, m, p) in [(8usize, 2usize, 2usize), (9, 3, 2)].iter() {
+                for wk in 0..3 {
+                    let w: Option<DVector<f64>> = match wk { 0 => None, 1 => Some(DVector::from_fn(n, |i, _| 1.0 / (1.0 + i as f64))), _ => Some(DVector::from_fn(n, |i, _| if i == 1 || i == 4 { 0.0 } else { 0.5 + 0.25 * i as f64 })) };
+                    for s in 1..=2usize {
+                        let y = ydata(n, s);
+                        let (a1, a2) = (vec![1.3, 4.0], vec![2.1, 6.5]);
+                        let cfg = format!("N={} M={} P={} S={} weights={} alpha={:?}", n, m, p, s, ["none", "1/(1+i)", "zeros at rows 1,4"][wk], a2);
+                        let mut report = |what: &str, d: f64| { if !found { println!("REPRODUCED: {} differs from the independent oracle (max abs diff {:e}) for {}", what, d, cfg); } found = true; };
+                        // multiple right-hand-side flavour
+                        let mut b = LevMarProblemBuilder::mrhs(model(n, m, p)).observations(y.clone());
+                        if let Some(w) = &w { b = b.weights(w.clone()); }
+                        let mut pr = b.build().unwrap();
+                        pr.set_params(&DVector::from_vec(a1.clone()));
+                        pr.set_params(&DVector::from_vec(a2.clone()));
+                        let o = oracle(n, m, p, &a2, &w, &y);
+                        if let Some(d) = close(&pr.weighted_data().into_owned(), &o.yw) { report("weighted_data()", d); }
+                        match pr.linear_coefficients() { Some(c) => if let Some(d) = close(&c.into_owned(), &o.coeff) { report("linear_coefficients()", d); }, None => report("linear_coefficients() == None", f64::NAN) }
+                        match pr.residuals() { Some(r) => if let Some(d) = close(&DMatrix::from_column_slice(r.len(), 1, r.as_slice()), &DMatrix::from_column_slice(o.resid.len(), 1, o.resid.as_slice())) { report("residuals()", d); }, None => report("residuals() == None", f64::NAN) }
+                        match pr.jacobian() { Some(j) => if let Some(d) = close(&j, &o.jac) { report("jacobian()", d); }, None => report("jacobian() == None", f64::NAN) }
+                        // a fresh problem at the same parameters must agree exactly (no history)
+                        let mut b2 = LevMarProblemBuilder::mrhs(model(n, m, p)).observations(y.clone());
+                        if let Some(w) = &w { b2 = b2.weights(w.clone()); }
+                        let mut fresh = b2.build().unwrap();
+                        fresh.set_params(&DVector::from_vec(a2.clone()));
+                        if fresh.residuals() != pr.residuals() || fresh.jacobian() != pr.jacobian() { report("state after two updates vs a fresh problem at the same parameters", f64::NAN); }
+                        // single right-hand-side flavour
+                        if s == 1 {
+                            let mut b = LevMarProblemBuilder::new(model(n, m, p)).observations(y.column(0).into_owned());
+                            if let Some(w) = &w { b = b.weights(w.clone()); }
+                            let mut pr = b.build().unwrap();
+                            pr.set_params(&DVector::from_vec(a2.clone()));
+                            match pr.linear_coefficients() { Some(c) => if let Some(d) = close(&DMatrix::from_column_slice(c.len(), 1, c.into_owned().as_slice()), &o.coeff) { report("linear_coefficients() [single rhs]", d); }, None => report("linear_coefficients() == None [single rhs]", f64::NAN) }
+                            match pr.residuals() { Some(r) => if let Some(d) = close(&DMatrix::from_column_slice(r.len(), 1, r.as_slice()), &DMatrix::from_column_slice(o.resid.len(), 1, o.resid.as_slice())) { report("residuals() [single rhs]", d); }, None => report("residuals() == None [single rhs]", f64::NAN) }
+                            match pr.jacobian() { Some(j) => if let Some(d) = close(&j, &o.jac) { report("jacobian() [single rhs]", d); }, None => report("jacobian() == None [single rhs]", f64::NAN) }
+                        }
+                    }
+                }
+            }
+            if !found { println!("NOT-REPRODUCED: 12 configurations agree with the independent oracle"); }
+        }
+        // C12-C14: statistics of a converged weighted fit against their defining formulas (recomputed from the public model API)
+        "stats_sweep" => {
+            let (n, m, p) = (30usize, 2usize, 2usize);
+            let y = ydata(n, 1).column(0).into_owned();
+            let mut found = false;
+            for wk in 0..2 {
+                let w: Option<DVector<f64>> = if wk == 0 { None } else { Some(DVector::from_fn(n, |i, _| 0.5 + 0.1 * (i % 5) as f64)) };
+                let mut b = LevMarProblemBuilder::new(model(n, m, p)).observations(y.clone());
+                if let Some(w) = &w { b = b.weights(w.clone()); }
+                let (fit, st) = match LevMarSolver::default().fit_with_statistics(b.build().unwrap()) { Ok(x) => x, Err(_) => { println!("NOT-REPRODUCED: fit did not converge"); return; } };
+                let alpha = fit.nonlinear_parameters();
+                let c = fit.linear_coefficients().unwrap().into_owned();
+                let mut mo = model(n, m, p);
+                mo.set_params(alpha.clone()).unwrap();
+                let phi = mo.eval().unwrap();
+                let wm = match &w { Some(w) => DMatrix::from_diagonal(w), None => DMatrix::identity(n, n) };
+                let mut j = DMatrix::zeros(n, m + p);
+                j.view_mut((0, 0), (n, m)).copy_from(&phi);
+                for k in 0..p { j.set_column(m + k, &(mo.eval_partial_deriv(k).unwrap() * &c)); }
+                let h = &wm * &j;
+                let r = &wm * (&y - &phi * &c);
+                let dof = (n - m - p) as f64;
+                let chi2 = r.norm_squared() / dof;
+                let cov = (h.transpose() * &h).try_inverse().unwrap() * chi2;
+                let cfg = format!("N={} M={} P={} weights={}", n, m, p, if wk == 0 { "none" } else { "0.5+0.1*(i%5)" });
+                let mut report = |what: &str| { if !found { println!("REPRODUCED: {} differs from its defining formula for {}", what, cfg); } found = true; };
+                if (st.reduced_chi2() - chi2).abs() > 1e-6 * (1.0 + chi2) { report("reduced_chi2()"); }
+                if close(&st.covariance_matrix().clone(), &cov).is_some() { report("covariance_matrix()"); }
+                if close(&DMatrix::from_column_slice(n, 1, st.weighted_residuals().as_slice()), &DMatrix::from_column_slice(n, 1, r.as_slice())).is_some() { report("weighted_residuals()"); }
+                let d = cov.diagonal();
+                if close(&DMatrix::from_column_slice(m, 1, st.linear_coefficients_variance().as_slice()), &DMatrix::from_column_slice(m, 1, &d.as_slice()[0..m])).is_some() { report("linear_coefficients_variance()"); }
+                if close(&DMatrix::from_column_slice(p, 1, st.nonlinear_parameters_variance().as_slice()), &DMatrix::from_column_slice(p, 1, &d.as_slice()[m..m + p])).is_some() { report("nonlinear_parameters_variance()"); }
+                let corr = DMatrix::from_fn(m + p, m + p, |a, b| cov[(a, b)] / (cov[(a, a)] * cov[(b, b)]).sqrt());
+                if close(&st.calculate_correlation_matrix(), &corr).is_some() { report("calculate_correlation_matrix()"); }
+                // the band radius is t * sqrt(j_i^T Cov j_i) with rows of the UNWEIGHTED J: the ratio must be the same for every sample
+                let band = st.confidence_band_radius(0.9);
+                let sig: Vec<f64> = (0..n).map(|i| (j.row(i) * &cov * j.row(i).transpose())[(0, 0)].sqrt()).collect();
+                let t0 = band[0] / sig[0];
+                if band.len() != n || (0..n).any(|i| (band[i] / sig[i] - t0).abs() > 1e-6 * t0.abs()) || !(t0 > 1.6 && t0 < 1.8) { report("confidence_band_radius(0.9) / sqrt(j_i^T Cov j_i) (expected the constant t(0.95; 26) = 1.7056)"); }
+            }
+            if !found { println!("NOT-REPRODUCED: statistics agree with their defining formulas"); }
         }
         _ => println!("NOT-REPRODUCED: unknown scenario"),
     }
